@@ -167,11 +167,14 @@ def rule_share(ctx):
                      "whose length was tested to be <= 1")
     n_sites = 0
     n_fns = 0
+    share_key = fx.fn("fun2core::compile::share")["key"]
+    lift_key = fx.fn("core2axcut::statements::cut::lift")["key"]
+    share_name, lift_name = share_key.split("::")[-1], lift_key.split("::")[-1]
     # ---- fun2core: consumer parameters ----
     for key, f in sorted(fx.fns.items()):
         if f["crate"] != "fun2core" or "{" in key.split(">::")[-1].replace("{closure", "{") and "{closure" in key or "{promoted" in key:
             continue
-        if key == "fun2core::compile::share":
+        if key == share_key:
             continue
         pidx = [i for i in range(1, f["argc"] + 1) if f["locals"][i]["ty"].endswith("Term<scc_core_lang::syntax::Cns>")]
         if not pidx:
@@ -185,7 +188,7 @@ def rule_share(ctx):
                 params.append(Sym("p%d" % i))
         consume = {"compile_with_cont", "compile_clause", "compile_coclause", "compile", "compile_subst"}
         try:
-            outs = analyse(fx, key, params, {"share"}, consume, rec)
+            outs = analyse(fx, key, params, {share_name}, consume, rec)
         except AnalysisError as e:
             raise AnalysisError("R-SHARE: %s: %s" % (key, e))
         n_sites += _judge(fx, rec, res, key, f, outs, "CONT", "share")
@@ -193,7 +196,7 @@ def rule_share(ctx):
     for key, f in sorted(fx.fns.items()):
         if f["crate"] != "core2axcut" or "{closure" in key or "{promoted" in key:
             continue
-        if key.endswith("::lift"):
+        if key == lift_key:
             continue
         pidx = [i for i in range(1, f["argc"] + 1) if f["locals"][i]["core"] == FSSTMT and "Clause" not in f["locals"][i]["ty"] and "[" not in f["locals"][i]["ty"]]
         if not pidx:
@@ -205,7 +208,7 @@ def rule_share(ctx):
                 params.append(Sym("STMT%d" % i, adt=FSSTMT))
             else:
                 params.append(Sym("p%d" % i))
-        outs = analyse(fx, key, params, {"lift"}, {"subst_sim"}, rec, result_wrappers=("shrink",), tracked="STMT")
+        outs = analyse(fx, key, params, {lift_name}, {"subst_sim"}, rec, result_wrappers=("shrink",), tracked="STMT")
         n_sites += _judge(fx, rec, res, key, f, outs, "STMT", "lift")
     if n_fns < 20:
         raise AnalysisError("R-SHARE: only %d functions analysed" % n_fns)
